@@ -1457,6 +1457,11 @@ func (cs *ConsensusState) addVote(vote *types.Vote, peerKey string) (added bool,
 			// fmt.Errorf("tryAddVote: Wrong height, not a LastCommit straggler commit.")
 			return added, ErrVoteHeightMismatch
 		}
+		if cs.LastCommit == nil {
+			// No last commit to add to (first height): a peer's precommit for height 0 must not
+			// reach AddVote on a nil VoteSet, which panics the consensus routine.
+			return added, ErrVoteHeightMismatch
+		}
 		added, err = cs.LastCommit.AddVote(vote)
 		if added {
 			log.Debug("Added to lastPrecommits: " + cs.LastCommit.StringShort())
